@@ -83,6 +83,20 @@ Proof.
     rewrite ?gen_split_path_info_is_model; reflexivity.
 Qed.
 
+(* ------------------------------------------------------------ traversal_path (str argument) *)
+Theorem gen_traversal_path_is_model p : gen_traversal_path p = traversal_path p.
+Proof.
+  unfold gen_traversal_path, traversal_path, ascii_encode_r, is_ascii, unquote_to_wsgi.
+  destruct (forallb (fun c => N.ltb c 128) p); rewrite ?gen_traversal_path_info_is_model;
+    try (destruct (traversal_path_info (Percent.unquote p)) as [?|?|]); reflexivity.
+Qed.
+
+Theorem gen_traversal_path_normal p l : gen_traversal_path p = Ok l -> Forall normal_seg l.
+Proof.
+  rewrite gen_traversal_path_is_model. unfold traversal_path.
+  destruct (is_ascii p); [apply tpi_normal|discriminate].
+Qed.
+
 (* ------------------------------------------------------------ the tail of __call__ *)
 Lemma loop_cons vp sub vt vidx root ob vroot i seg rest :
   loop vp sub vt vidx root ob vroot i (seg :: rest) =
@@ -226,3 +240,275 @@ Example c02_gen_nonvacuous :
   gen_traverser_call ([], wit_tree) (mkReq (Some [47; 97; 47; 98; 47; 122; 122; 47; 116]%N) None None)
   = Ok (mkT [0; 0] [122; 122]%N [[116%N]] [ta; tb] [] [] []).
 Proof. vm_compute. repeat split. Qed.
+
+(* ------------------------------------------------------------ the preamble of __call__ *)
+(* webob's BaseRequest.path_info decodes like decode_path_info (latin-1 bytes read as UTF-8) *)
+Lemma webob_path_info_is_decode p : webob_path_info p = decode_path_info p.
+Proof.
+  unfold webob_path_info, decode_path_info, latin1_encode_r, utf8_decode_r, rbind.
+  destruct (forallb (fun c => N.ltb c 256) p); [destruct (Utf8.decode p)|]; reflexivity.
+Qed.
+
+(* take the request apart: every variable a match inspects, then the results of the two decoders *)
+Ltac pre_vars :=
+  repeat match goal with
+         | |- context [match ?x with _ => _ end] => is_var x; destruct x
+         | |- context [mval_falsy ?v] => is_var v; destruct v as [[|? ?]|[|? ?]]
+         | |- context [mval_falsy (MStr ?v)] => is_var v; destruct v
+         | |- context [mval_falsy (MTuple ?v)] => is_var v; destruct v
+         end.
+Ltac pre_leaf :=
+  cbn -[gen_split_path_info gen_decode_path_info split_path_info decode_path_info webob_path_info
+        Z.sub Z.add Z.of_nat join];
+  rewrite ?webob_path_info_is_decode, ?gen_decode_path_info_is_model, ?gen_split_path_info_is_model;
+  try reflexivity.
+
+Theorem gen_call_preamble_is_model q : gen_call_preamble q = call_preamble q.
+Proof.
+  destruct q as [pi md vr].
+  unfold gen_call_preamble, call_preamble, path_and_subpath, vroot_part, md_get, as_url_decode_error,
+         vroot_idx_off, vroot_idx_absent, slash_text, slash.
+  cbn [q_path_info q_matchdict q_vroot].
+  destruct md as [[tr sp]|]; cbn [md_traverse md_subpath].
+  - destruct tr as [[[|c t]|[|x l]]|]; destruct sp as [[s|l']|]; destruct vr as [raw|]; pre_leaf;
+      try (destruct (decode_path_info raw) as [d|[]|]; pre_leaf).
+  - destruct pi as [raw0|]; destruct vr as [raw|]; pre_leaf;
+      try (destruct (decode_path_info raw0) as [[|c0 d0]|[]|]; pre_leaf);
+      try (destruct (decode_path_info raw) as [d|[]|]; pre_leaf).
+Qed.
+
+(* the whole of ResourceTreeTraverser.__call__, regenerated: preamble ; tail *)
+Theorem gen_call_is_model root q : gen_call root q = traverser_call root q.
+Proof.
+  unfold gen_call. rewrite gen_call_preamble_is_model.
+  rewrite <- gen_traverser_call_is_model. unfold gen_traverser_call, call_preamble.
+  destruct (path_and_subpath q) as [[path sub]| |]; cbn [rbind]; try reflexivity.
+  destruct (vroot_part q path) as [[[vt vpath] vidx]| |]; cbn [rbind]; reflexivity.
+Qed.
+
+(* ------------------------------------------------------------ find_root *)
+Theorem gen_find_root_c02_is_model tree x : gen_find_root_c02 tree x = find_root_walk tree x.
+Proof.
+  unfold gen_find_root_c02, find_root_walk.
+  match goal with
+  | |- ?F (lineage_of tree x) x = _ => enough (H : forall l c, F l c = first_parentless l c) by apply H
+  end.
+  induction l as [|y l IH]; intros c; [reflexivity|].
+  cbv beta match fix. cbn [first_parentless].
+  destruct (parent_is_none y); [reflexivity|apply IH].
+Qed.
+
+(* every member of the lineage below the root has a parent; the last member is the root *)
+Lemma first_parentless_prefixes tree p ks dflt :
+  p <> [] -> Forall (fun k => k <> 0) ks ->
+  first_parentless
+    (flat_map (fun k => match node_at tree (firstn k p) with Some n => [(firstn k p, n)] | None => [] end) ks
+     ++ [([], tree)]) dflt = ([], tree).
+Proof.
+  intros Hp. induction ks as [|k ks IH]; intros H; [reflexivity|].
+  inversion H as [|? ? Hk Hks]; subst. cbn [flat_map].
+  destruct k as [|k]; [congruence|]. destruct p as [|i r]; [congruence|].
+  cbn [firstn]. destruct (node_at tree (i :: firstn k r)) as [n|]; cbn [app]; [|apply IH; exact Hks].
+  cbn [first_parentless]. unfold parent_is_none at 1. cbn [fst is_nil]. apply IH; exact Hks.
+Qed.
+
+(* find_root(resource) is the root of the tree the resource lives in, whatever the resource *)
+Theorem find_root_walk_is_root tree p n :
+  node_at tree p = Some n -> find_root_walk tree (p, n) = ([], tree).
+Proof.
+  intros H. unfold find_root_walk, lineage_of. cbn [fst].
+  destruct p as [|i r].
+  - cbn in H. inversion H; subst. reflexivity.
+  - cbn [first_parentless]. unfold parent_is_none at 1. cbn [fst is_nil length seq rev].
+    rewrite flat_map_app. cbn [flat_map firstn node_at app].
+    apply first_parentless_prefixes; [discriminate|].
+    apply Forall_rev, Forall_forall. intros k Hk. apply in_seq in Hk. lia.
+Qed.
+
+Theorem gen_find_root_c02_is_root tree p n :
+  node_at tree p = Some n -> gen_find_root_c02 tree (p, n) = ([], tree).
+Proof. rewrite gen_find_root_c02_is_model. apply find_root_walk_is_root. Qed.
+
+(* the resource traverse() hands to the traverser for an absolute path is what find_root computes *)
+Theorem traverse_absolute_uses_find_root T root start n path :
+  node_at root start = Some n -> is_ascii (slash :: path) = true ->
+  traverse_with T root start (PStr (slash :: path)) =
+  if has_scheme (slash :: path) then Unsupported
+  else T (gen_find_root_c02 root (start, n))
+         (mkReq (Some (webob_unquote (hd [] (split_on question (slash :: path))))) None None).
+Proof.
+  intros Hn Ha. rewrite (gen_find_root_c02_is_root _ _ _ Hn).
+  unfold traverse_with. cbn [rbind]. rewrite Ha. cbn [negb]. unfold slash at 2. cbn [N.eqb Pos.eqb rbind].
+  reflexivity.
+Qed.
+
+(* ---- the property theorems about the WHOLE regenerated __call__ *)
+Theorem gen_call_resolves root q d :
+  gen_call root q = Ok d ->
+  exists path sub vt ctx consumed rest,
+    path_and_subpath q = Ok (path, sub) /\ vroot_tuple_of q = Ok vt /\
+    walk_outcome root (vt ++ gen_split_path_info path) ctx consumed rest /\
+    t_context d = fst ctx /\
+    t_view_name d = view_name_of rest /\
+    t_subpath d = subpath_of sub rest /\
+    t_traversed d = consumed ++ firstn (length vt) rest /\
+    t_virtual_root_path d = vt /\ t_root d = fst root /\
+    ((length vt <= length consumed /\
+        exists v c', descend root vt = Some v /\ t_virtual_root d = fst v /\ consumed = vt ++ c' /\
+                     descend v c' = Some ctx /\ exists suffix, t_context d = fst v ++ suffix)
+     \/ (length consumed < length vt /\ t_virtual_root d = fst root /\
+         exists more, more <> [] /\ vt = consumed ++ more)).
+Proof. rewrite gen_call_is_model, <- gen_traverser_call_is_model. apply gen_traverser_resolves. Qed.
+
+Theorem gen_call_traversed_partial root q :
+  q_vroot q = None -> gen_call root q = spec_traverser root q.
+Proof. rewrite gen_call_is_model. apply traverser_no_vroot_meets_spec. Qed.
+
+(* the preamble never looks at PATH_INFO when a route matched, and at the match dictionary otherwise *)
+Theorem gen_call_preamble_matchdict_wins pi pi' md vr :
+  gen_call_preamble (mkReq pi (Some md) vr) = gen_call_preamble (mkReq pi' (Some md) vr).
+Proof. rewrite !gen_call_preamble_is_model. reflexivity. Qed.
+
+Lemma decode_path_info_exn raw e : decode_path_info raw = Exc e -> e <> URLDecodeError.
+Proof.
+  unfold decode_path_info. destruct (forallb _ raw); [destruct (Utf8.decode raw)|]; intros H; inversion H; discriminate.
+Qed.
+
+Lemma traverser_call_exc root q e :
+  traverser_call root q = Exc e ->
+  path_and_subpath q = Exc e \/ exists path sub, path_and_subpath q = Ok (path, sub) /\ vroot_part q path = Exc e.
+Proof.
+  unfold traverser_call, traverser_call_mode.
+  destruct (path_and_subpath q) as [[path sub]|ex|]; cbn [rbind].
+  - destruct (vroot_part q path) as [[[vt vp] vi]|ex|] eqn:E; cbn [rbind].
+    + destruct (text_eqb vp slash_text); discriminate.
+    + intros H; inversion H; subst. right. exists path, sub. split; [reflexivity|exact E].
+    + discriminate.
+  - intros H; inversion H; subst. left. reflexivity.
+  - discriminate.
+Qed.
+
+Lemma path_and_subpath_exc q e :
+  path_and_subpath q = Exc e ->
+  q_matchdict q = None /\ exists raw, q_path_info q = Some raw /\ as_url_decode_error (decode_path_info raw) = Exc e.
+Proof.
+  unfold path_and_subpath. destruct (q_matchdict q) as [md|]; [discriminate|].
+  destruct (q_path_info q) as [raw|]; [|discriminate].
+  destruct (as_url_decode_error (decode_path_info raw)) as [d|ex|] eqn:E; cbn [rbind]; try discriminate.
+  intros H; inversion H; subst. split; [reflexivity|]. exists raw. split; [reflexivity|exact E].
+Qed.
+
+Lemma vroot_part_exc q path e :
+  vroot_part q path = Exc e -> exists raw, q_vroot q = Some raw /\ decode_path_info raw = Exc e.
+Proof.
+  unfold vroot_part. destruct (q_vroot q) as [raw|]; [|discriminate].
+  destruct (decode_path_info raw) as [d|ex|] eqn:E; cbn [rbind]; try discriminate.
+  intros H; inversion H; subst. exists raw. split; [reflexivity|exact E].
+Qed.
+
+(* a malformed PATH_INFO is a URLDecodeError (UnicodeEncodeError when it is not WSGI text), a malformed
+   virtual-root header a UnicodeDecodeError / UnicodeEncodeError, and nothing else can go wrong: *)
+Theorem gen_call_errors root q e :
+  gen_call root q = Exc e ->
+  (e = URLDecodeError /\ q_matchdict q = None /\
+     exists raw, q_path_info q = Some raw /\ decode_path_info raw = Exc UnicodeDecodeError)
+  \/ (exists raw, (q_path_info q = Some raw /\ q_matchdict q = None \/ q_vroot q = Some raw)
+                  /\ decode_path_info raw = Exc e /\ e <> URLDecodeError).
+Proof.
+  rewrite gen_call_is_model. intros H.
+  destruct (traverser_call_exc _ _ _ H) as [P|(path & sub & _ & V)].
+  - destruct (path_and_subpath_exc _ _ P) as (Hm & raw & Hp & E).
+    destruct (decode_path_info raw) as [d|ex|] eqn:D; cbn [as_url_decode_error] in E; try discriminate.
+    destruct ex; inversion E; subst.
+    + exfalso. exact (decode_path_info_exn _ _ D eq_refl).
+    + left. split; [reflexivity|]. split; [exact Hm|]. exists raw. split; [exact Hp|exact D].
+    + right. exists raw. split; [left; split; assumption|]. split; [exact D|discriminate].
+  - destruct (vroot_part_exc _ _ _ V) as (raw & Hv & E).
+    right. exists raw. split; [right; exact Hv|]. split; [exact E|exact (decode_path_info_exn _ _ E)].
+Qed.
+
+Example gen_call_nonvacuous :
+  gen_call ([], wit_tree) (mkReq (Some [47; 97; 47; 98; 47; 122; 122; 47; 116]%N) None None)
+  = Ok (mkT [0; 0] [122; 122]%N [[116%N]] [ta; tb] [] [] []) /\
+  gen_call ([], wit_tree) (mkReq (Some [47; 255]%N) None None) = Exc URLDecodeError /\
+  gen_call ([], wit_tree) (mkReq (Some [47]%N) None (Some [47; 255]%N)) = Exc UnicodeDecodeError /\
+  gen_call ([], wit_tree) (mkReq None (Some (mkMd (Some (MTuple [ta; tb])) (Some (MStr [47; 116; 47]%N)))) None)
+  = Ok (mkT [0; 0] [] [[116%N]] [ta; tb] [] [] []) /\
+  gen_find_root_c02 wit_tree ([0; 0], Node None) = ([], wit_tree).
+Proof. vm_compute. repeat split. Qed.
+
+(* ------------------------------------------------------------ traverse(): which resource the walk starts from *)
+(* the path text traverse() works with: a str as given, a tuple through _join_path_tuple *)
+Definition api_path_text (p : api_path) : result text :=
+  match p with PStr s => Ok s | PTuple [] => Ok [] | PTuple l => join_path_tuple l end.
+
+(* an ABSOLUTE path is resolved from the root of the tree, whatever resource of the tree is passed *)
+Theorem traverse_absolute_start_irrelevant T root s1 s2 n1 n2 p r :
+  node_at root s1 = Some n1 -> node_at root s2 = Some n2 ->
+  api_path_text p = Ok (slash :: r) ->
+  traverse_with T root s1 p = traverse_with T root s2 p.
+Proof.
+  intros H1 H2 Hp. unfold traverse_with. unfold api_path_text in Hp. rewrite Hp. cbn [rbind].
+  destruct (negb (is_ascii (slash :: r))); [reflexivity|].
+  rewrite N.eqb_refl. reflexivity.
+Qed.
+
+(* a RELATIVE path is resolved from the resource passed: that resource is the `root` of the result and the
+   context lies below it *)
+Theorem traverse_relative_starts_at_resource root start n p path d :
+  node_at root start = Some n -> api_path_text p = Ok path ->
+  hd_error path <> Some slash ->
+  traverse_api root start p = Ok d ->
+  t_root d = start /\ exists suffix, t_context d = start ++ suffix.
+Proof.
+  intros Hn Hp Hrel. unfold traverse_api, traverse_with. unfold api_path_text in Hp. rewrite Hp. cbn [rbind].
+  destruct (negb (is_ascii path)); [discriminate|].
+  assert (R : match path with
+              | c :: _ => if N.eqb c slash then Ok ([], root)
+                          else match node_at root start with Some n0 => Ok (start, n0) | None => Unsupported end
+              | [] => match node_at root start with Some n0 => Ok (start, n0) | None => Unsupported end
+              end = Ok (start, n)).
+  { rewrite Hn. destruct path as [|c path']; [reflexivity|].
+    destruct (N.eqb c slash) eqn:E; [|reflexivity].
+    apply N.eqb_eq in E. subst c. exfalso. apply Hrel. reflexivity. }
+  rewrite R. cbn [rbind]. destruct (has_scheme path); [discriminate|].
+  intros H. destruct (traverser_resolves _ _ _ H) as (pth & sub & vt & ctx & c & rst & Hps & Hvt & Hw & Hc & _ & _ & _ & _ & Hr & Hv).
+  split; [exact Hr|].
+  unfold vroot_tuple_of in Hvt. cbn [q_vroot] in Hvt. inversion Hvt; subst vt.
+  destruct Hv as [(_ & v & c' & Hd & _ & _ & _ & sfx & Hs)|(Hlt & _)]; [|cbn in Hlt; lia].
+  cbn [descend] in Hd. inversion Hd; subst v. exists sfx. exact Hs.
+Qed.
+
+Example traverse_start_nonvacuous :
+  traverse_api wit_tree [0] (PStr [98; 47; 122]%N) = Ok (mkT [0; 0] [122%N] [] [tb] [0] [] [0]) /\
+  traverse_api wit_tree [0; 0] (PTuple [[]; tb; tx]) = traverse_api wit_tree [] (PTuple [[]; tb; tx]) /\
+  traverse_api wit_tree [0; 0] (PTuple [[]; tb; tx]) = Ok (mkT [1; 0] [] [] [tb; tx] [] [] []).
+Proof. vm_compute. repeat split. Qed.
+
+(* the falsy-but-valid inputs of the preamble: an absent or empty PATH_INFO is '/', an absent / '' / () `traverse`
+   entry of the match dictionary is '/', an absent `subpath` entry is () *)
+Theorem gen_call_preamble_falsy_inputs vr sp :
+  gen_call_preamble (mkReq None None vr) = gen_call_preamble (mkReq (Some [47%N]) None vr) /\
+  gen_call_preamble (mkReq (Some []) None vr) = gen_call_preamble (mkReq (Some [47%N]) None vr) /\
+  (forall pi, gen_call_preamble (mkReq pi (Some (mkMd None sp)) vr)
+              = gen_call_preamble (mkReq pi (Some (mkMd (Some (MStr [47%N])) sp)) vr)) /\
+  (forall pi, gen_call_preamble (mkReq pi (Some (mkMd (Some (MStr [])) sp)) vr)
+              = gen_call_preamble (mkReq pi (Some (mkMd (Some (MStr [47%N])) sp)) vr)) /\
+  (forall pi, gen_call_preamble (mkReq pi (Some (mkMd (Some (MTuple [])) sp)) vr)
+              = gen_call_preamble (mkReq pi (Some (mkMd (Some (MStr [47%N])) sp)) vr)) /\
+  (forall pi tr, gen_call_preamble (mkReq pi (Some (mkMd tr None)) vr)
+                 = gen_call_preamble (mkReq pi (Some (mkMd tr (Some (MTuple [])))) vr)).
+Proof.
+  rewrite !gen_call_preamble_is_model.
+  repeat split; intros; rewrite ?gen_call_preamble_is_model; reflexivity.
+Qed.
+
+(* one long-lived traverser object, stated about the regenerated __call__: the translation of the whole method reads
+   `self` only through self.root / self.VIEW_SELECTOR / self.VH_ROOT_KEY and has no rule for a store to `self`, so the
+   regenerated method is a function of (root, request); a history on one object is the map of that function *)
+Theorem gen_call_obj_history o qs :
+  obj_history o qs = (map (gen_call (o_root o)) qs, o).
+Proof.
+  rewrite obj_history_free. f_equal. apply map_ext. intros q. cbn [obj_call o_root fst].
+  symmetry. apply gen_call_is_model.
+Qed.
